@@ -21,100 +21,159 @@ def run(ctx: Context) -> None:
     ctx.rule('R19.5', "ravel gives linear index order whatever the variable's own dimension order: the flattened dimensions are the convention's grid_dimensions[kind] (shared with C03)", floor=1)
     ctx.assume("matplotlib PolyCollection pairs array[k] with verts[k]; Quiver pairs U[k], V[k] with X[k], Y[k]")
 
+    from ..pattern import Matcher
+    from .common import arg_or_kw, guards, positive_conditions
+    SELF_POLYS, SELF_MASK = ('attr', ('param', 'self'), 'polygons'), ('attr', ('param', 'self'), 'mask')
+
     for mp in p.implementations(p.cls(BASE), 'make_poly_collection'):
         flow = ctx.flow(mp)
-        cfg = ctx.cfg(mp)
         rets = mp.returns()
+        m = Matcher(ctx, mp)
+        dap = mp.params[1]
         pc = [c for c in calls_in(mp) if callee(ctx, mp, c) == f"{PLOT}.polygons_to_collection"]
         ctx.need('R19.1', len(pc) == 1 and pc[0].args, "make_poly_collection builds the artist with polygons_to_collection", mp)
-        a0 = pc[0].args[0]
-        ok = (isinstance(a0, ast.Subscript) and flow.canon(a0.value) == ('attr', ('param', 'self'), 'polygons')
-              and flow.canon(a0.slice) == ('attr', ('param', 'self'), 'mask'))
+        a0 = flow.resolve(pc[0].args[0])
+        ok = (isinstance(a0, ast.Subscript) and flow.canon(a0.value) == SELF_POLYS and flow.canon(a0.slice) == SELF_MASK)
         ctx.check('R19.1', ok, "the patches are self.polygons[self.mask]", mp, pc[0], construct=f"polygons_to_collection({norm_text(a0)}, ...)")
-        vals = [n for n in walk_no_nested(mp.node) if isinstance(n, ast.Assign) and norm_text(n.targets[0]) == 'values']
+        # the values handed over as `array`
+        arr = [n for n in walk_no_nested(mp.node) if isinstance(n, ast.Assign) and isinstance(n.targets[0], ast.Subscript)
+               and const_value(n.targets[0].slice, None) == 'array' and isinstance(n.targets[0].value, ast.Name)]
+        kw_name = arr[0].targets[0].value.id if arr else None
+        ok_arr = len(arr) == 1 and any(k.arg is None and isinstance(k.value, ast.Name) and k.value.id == kw_name for k in pc[0].keywords)
+        vals = flow.resolve(arr[0].value) if arr else None
+        ravels = [c for c in method_calls(mp, 'ravel') if norm_text(c.func.value) == 'self']
+        ok_vals = False
+        if isinstance(vals, ast.Subscript) and flow.canon(vals.slice) == SELF_MASK:
+            src = flow.resolve(vals.value)
+            ok_vals = (isinstance(src, ast.Attribute) and src.attr == 'values' and len(ravels) == 1
+                       and flow.reaches(src.value, lambda n: n is ravels[0]))
+        ctx.check('R19.1', ok_vals, "the values are the ravelled variable indexed by that same self.mask", mp, arr[0] if arr else mp.node,
+                  construct=f"values = {norm_text(vals) if vals is not None else '?'}")
+        ctx.check('R19.1', ok_arr and ok_vals, "those values are what the collection receives as `array`", mp, arr[0] if arr else mp.node)
+        clim = [n for n in walk_no_nested(mp.node) if isinstance(n, ast.Assign) and isinstance(n.targets[0], ast.Subscript)
+                and const_value(n.targets[0].slice, None) == 'clim' and isinstance(n.targets[0].value, ast.Name) and n.targets[0].value.id == kw_name]
         ok = False
-        if len(vals) == 1:
-            v = vals[0].value
-            ok = (isinstance(v, ast.Subscript) and flow.canon(v.slice) == ('attr', ('param', 'self'), 'mask')
-                  and isinstance(v.value, ast.Attribute) and v.value.attr == 'values'
-                  and flow.reaches(v.value.value, lambda n: isinstance(n, ast.Call) and isinstance(n.func, ast.Attribute) and n.func.attr == 'ravel'
-                                   and norm_text(n.func.value) == 'self'))
-        ctx.check('R19.1', ok, "the values are the ravelled variable indexed by that same self.mask", mp, vals[0] if vals else mp.node,
-                  construct=f"values = {norm_text(vals[0].value) if vals else '?'}")
-        arr = [n for n in walk_no_nested(mp.node) if isinstance(n, ast.Assign) and norm_text(n.targets[0]) == "kwargs['array']"]
-        ok = len(arr) == 1 and norm_text(arr[0].value) == 'values' and any(k.arg is None and norm_text(k.value) == 'kwargs' for k in pc[0].keywords)
-        ctx.check('R19.1', ok, "those values are what the collection receives as `array`", mp, arr[0] if arr else mp.node)
-        clim = [n for n in walk_no_nested(mp.node) if isinstance(n, ast.Assign) and norm_text(n.targets[0]) == "kwargs['clim']"]
-        ok = (len(clim) == 1 and norm_text(clim[0].value) == '(numpy.nanmin(values), numpy.nanmax(values))'
-              and ("'clim' not in kwargs", True) in [(norm_text(st.test), inb) for st, inb in enclosing_ifs(mp, clim[0])])
+        if len(clim) == 1 and arr:
+            cv = flow.resolve(clim[0].value)
+            if isinstance(cv, ast.Tuple) and len(cv.elts) == 2:
+                lo, hi = (flow.resolve(e) for e in cv.elts)
+                same = lambda e: flow.canon(e) == flow.canon(arr[0].value) or flow.resolve(e) is vals
+                ok = (isinstance(lo, ast.Call) and callee(ctx, mp, lo) == 'numpy.nanmin' and isinstance(hi, ast.Call) and callee(ctx, mp, hi) == 'numpy.nanmax'
+                      and len(lo.args) == 1 and len(hi.args) == 1 and same(lo.args[0]) and same(hi.args[0])
+                      and (f"'clim' in {kw_name}", False) in guards(mp, clim[0]))
         ctx.check('R19.1', ok, "default colour limits span exactly the plotted (masked) values; a caller's clim is kept", mp, clim[0] if clim else mp.node)
-        rv = [c for c in method_calls(mp, 'ravel') if norm_text(c.func.value) == 'self']
-        ok = len(rv) == 1 and len(rv[0].args) == 1 and flow.reaches(rv[0].args[0], lambda n: isinstance(n, ast.Call) and (callee(ctx, mp, n) or '').endswith('name_to_data_array'))
-        ctx.check('R19.1', ok, "the variable (by name or as an array, checked against the dataset) is flattened by the convention's ravel", mp, rv[0] if rv else mp.node)
+        ok = len(ravels) == 1 and len(ravels[0].args) == 1 and flow.reaches(ravels[0].args[0], lambda n: isinstance(n, ast.Call) and (callee(ctx, mp, n) or '').endswith('name_to_data_array'))
+        ctx.check('R19.1', ok, "the variable (by name or as an array, checked against the dataset) is flattened by the convention's ravel", mp, ravels[0] if ravels else mp.node)
         raises = [n for n in walk_no_nested(mp.node) if isinstance(n, ast.Raise)]
-        dims_guard = [r for r in raises if any(inb and norm_text(st.test) == 'len(data_array.dims) > 1' for st, inb in enclosing_ifs(mp, r))]
-        both_guard = [r for r in raises if any(inb and norm_text(st.test) == "'array' in kwargs" for st, inb in enclosing_ifs(mp, r))]
-        st_pc = stmt_of(mp, pc[0])
-        ok = len(dims_guard) == 1 and bool(vals) and dims_guard[0].lineno < vals[0].lineno and (not rv or dims_guard[0].lineno > rv[0].lineno)
+        dims_guard = []
+        for r in raises:
+            for t, pol in positive_conditions(mp, r):
+                if isinstance(t, ast.Compare) and len(t.ops) == 1 and isinstance(t.ops[0], ast.Gt) and const_value(t.comparators[0], None) == 1 and pol \
+                        and isinstance(t.left, ast.Call) and dotted(t.left.func) == 'len' and isinstance(flow.resolve(t.left.args[0]), ast.Attribute) \
+                        and flow.resolve(t.left.args[0]).attr == 'dims' and ravels and flow.reaches(flow.resolve(t.left.args[0]).value, lambda n: n is ravels[0]):
+                    dims_guard.append(r)
+        both_guard = [r for r in raises if (f"'array' in {kw_name}", True) in guards(mp, r)] if kw_name else []
+        ok = len(dims_guard) == 1 and bool(arr) and dims_guard[0].lineno < arr[0].lineno
         ctx.check('R19.1', ok, "a variable with leftover non-spatial dimensions is refused after flattening and before values are taken", mp,
-                  dims_guard[0] if dims_guard else mp.node, construct='if len(data_array.dims) > 1: raise ValueError')
+                  dims_guard[0] if dims_guard else mp.node, construct='if len(<ravelled>.dims) > 1: raise ValueError')
         ctx.check('R19.1', len(both_guard) == 1, "passing both data_array and array is refused", mp, both_guard[0] if both_guard else mp.node)
         ok = bool(rets) and all(flow.resolve(r.value) is pc[0] for r in rets)
         ctx.check('R19.1', ok, "the artist returned is that collection", mp, rets[0] if rets else mp.node)
 
     ptc = ctx.func(f"{PLOT}.polygons_to_collection")
+    pflow = ctx.flow(ptc)
+    mpt = Matcher(ctx, ptc)
     pcs = [c for c in calls_in(ptc) if (dotted(c.func) or '').endswith('PolyCollection')]
     ok = False
     if len(pcs) == 1:
-        verts = kwarg(pcs[0], 'verts') or (pcs[0].args[0] if pcs[0].args else None)
-        ok = (isinstance(verts, ast.ListComp) and len(verts.generators) == 1 and not verts.generators[0].ifs
-              and norm_text(verts.generators[0].iter) == ptc.params[0]
-              and norm_text(verts.elt) == f"numpy.asarray({norm_text(verts.generators[0].target)}.exterior.coords)")
-    ctx.check('R19.2', ok, "verts[k] is the exterior ring of polygon k, unfiltered and in order", ptc, pcs[0] if pcs else ptc.node)
-    ok = len(pcs) == 1 and any(k.arg is None for k in pcs[0].keywords) and all(ctx.flow(ptc).resolve(r.value) is pcs[0] for r in ptc.returns())
+        verts = arg_or_kw(pcs[0], 0, 'verts')
+        verts = pflow.resolve(verts) if verts is not None else None
+        ok = verts is not None and mpt.match(f"[numpy.asarray($p.exterior.coords) for $p in {ptc.params[0]}]", verts, commit=False)
+    ctx.check('R19.2', bool(ok), "verts[k] is the exterior ring of polygon k, unfiltered and in order", ptc, pcs[0] if pcs else ptc.node)
+    ok = len(pcs) == 1 and any(k.arg is None for k in pcs[0].keywords) and all(pflow.resolve(r.value) is pcs[0] for r in ptc.returns())
     ctx.check('R19.2', ok, "keyword arguments (array, clim, transform ...) are passed through to that collection", ptc, pcs[0] if pcs else ptc.node)
 
     for mq in p.implementations(p.cls(BASE), 'make_quiver'):
         flow = ctx.flow(mq)
-        xy = [n for n in walk_no_nested(mq.node) if isinstance(n, ast.Assign) and norm_text(n.targets[0]) == '(x, y)']
-        ok = len(xy) == 1 and norm_text(xy[0].value) == 'numpy.transpose(self.face_centres)'
-        ctx.check('R19.3', ok, "x, y are the two columns of face_centres (one row per cell in linear order)", mq, xy[0] if xy else mq.node)
+        mm = Matcher(ctx, mq)
+        up, vp = mq.params[2], mq.params[3]
+        xy = mm.stmt('$x, $y = numpy.transpose(self.face_centres)')
+        ctx.check('R19.3', xy is not None, "x, y are the two columns of face_centres (one row per cell in linear order)", mq, xy or mq.node)
         q = [c for c in calls_in(mq) if (dotted(c.func) or '').endswith('Quiver')]
-        ok = len(q) == 1 and [norm_text(a) for a in q[0].args] == ['axes', 'x', 'y', '*values']
-        ctx.check('R19.3', ok, "the Quiver receives (x, y, u values, v values) in that order", mq, q[0] if q else mq.node)
-        uv = [n for n in walk_no_nested(mq.node) if isinstance(n, ast.Assign) and norm_text(n.targets[0]) == '(u, v)']
-        ok = len(uv) == 1 and norm_text(uv[0].value) == '(self.ravel(u), self.ravel(v))'
-        ctx.check('R19.3', ok, "both components are flattened by the convention's ravel", mq, uv[0] if uv else mq.node)
-        va = [n for n in walk_no_nested(mq.node) if isinstance(n, ast.Assign) and norm_text(n.targets[0]) == 'values' and 'u.values' in norm_text(n.value)]
-        ok = len(va) == 1 and norm_text(va[0].value) == '(u.values, v.values)' and bool(uv) and va[0].lineno > uv[0].lineno
+        ok = len(q) == 1 and xy is not None and mm.match(f"Quiver({mq.params[1]}, $x, $y, *$values, **$$kw)", q[0], commit=True)
+        ctx.check('R19.3', bool(ok), "the Quiver receives (x, y, u values, v values) in that order", mq, q[0] if q else mq.node)
+        ravels = [c for c in method_calls(mq, 'ravel') if norm_text(c.func.value) == 'self']
+        ru = [c for c in ravels if c.args and flow.reaches(c.args[0], lambda n: isinstance(n, ast.Name) and n.id == up and any(d.kind == 'param' for d in flow.defs_of(n)))]
+        rv = [c for c in ravels if c.args and flow.reaches(c.args[0], lambda n: isinstance(n, ast.Name) and n.id == vp and any(d.kind == 'param' for d in flow.defs_of(n)))]
+        ok_rav = len(ravels) == 2 and len(ru) == 1 and len(rv) == 1 and ru[0] is not rv[0]
+        ctx.check('R19.3', ok_rav, "both components are flattened by the convention's ravel", mq, ravels[0] if ravels else mq.node)
+        # values = (ravel(u).values, ravel(v).values) in that order
+        va = None
+        for n in walk_no_nested(mq.node):
+            if isinstance(n, ast.Assign) and isinstance(n.targets[0], ast.Name) and n.targets[0].id == mm.name('values') and isinstance(flow.resolve(n.value), ast.Tuple):
+                tv = flow.resolve(n.value)
+                if len(tv.elts) == 2 and all(isinstance(flow.resolve(e), ast.Attribute) and flow.resolve(e).attr == 'values' for e in tv.elts):
+                    va = (n, tv)
+        def element(e):
+            """The expression a name stands for, looking through `a, b = x, y`."""
+            e = flow.resolve(e)
+            for _ in range(4):
+                if isinstance(e, ast.Name):
+                    d = flow.single_def(e)
+                    if d is not None and d.kind == 'unpack' and isinstance(d.value, ast.Tuple) and d.index is not None and len(d.index) == 1 \
+                            and d.index[0] < len(d.value.elts):
+                        e = flow.resolve(d.value.elts[d.index[0]])
+                        continue
+                break
+            return e
+
+        ok = False
+        if va is not None and ok_rav:
+            e0, e1 = (flow.resolve(e) for e in va[1].elts)
+            ok = element(e0.value) is ru[0] and element(e1.value) is rv[0]
         ctx.check('R19.3', ok, "the components are u first, v second, taken after flattening", mq, va[0] if va else mq.node)
         raises = [n for n in walk_no_nested(mq.node) if isinstance(n, ast.Raise)]
-        g1 = [r for r in raises if any(inb and norm_text(st.test) == 'u.dims != v.dims' for st, inb in enclosing_ifs(mq, r))]
-        g2 = [r for r in raises if any(inb and norm_text(st.test) == 'len(u.dims) > 1' for st, inb in enclosing_ifs(mq, r))]
-        ok = len(g1) == 1 and bool(uv) and g1[0].lineno < uv[0].lineno
+
+        def dims_of(e):
+            e = flow.resolve(e)
+            return e.value if isinstance(e, ast.Attribute) and e.attr == 'dims' else None
+
+        g1, g2 = [], []
+        for r in raises:
+            for t, pol in positive_conditions(mq, r):
+                if isinstance(t, ast.Compare) and len(t.ops) == 1 and isinstance(t.ops[0], ast.Eq) and pol is False \
+                        and dims_of(t.left) is not None and dims_of(t.comparators[0]) is not None:
+                    g1.append(r)
+                if isinstance(t, ast.Compare) and len(t.ops) == 1 and isinstance(t.ops[0], ast.Gt) and pol and const_value(t.comparators[0], None) == 1 \
+                        and isinstance(t.left, ast.Call) and dotted(t.left.func) == 'len' and dims_of(t.left.args[0]) is not None \
+                        and ok_rav and (flow.reaches(dims_of(t.left.args[0]), lambda n: n is ru[0]) or flow.reaches(dims_of(t.left.args[0]), lambda n: n is rv[0])):
+                    g2.append(r)
+        first_ravel = min((c.lineno for c in ravels), default=0)
+        ok = len(g1) == 1 and bool(ravels) and g1[0].lineno < first_ravel
         ctx.check('R19.3', ok, "components with different dimensions are refused before flattening", mq, g1[0] if g1 else mq.node)
-        ok = len(g2) == 1 and bool(uv) and bool(va) and uv[0].lineno < g2[0].lineno < va[0].lineno
+        ok = len(g2) == 1 and va is not None and first_ravel <= g2[0].lineno < va[0].lineno
         ctx.check('R19.3', ok, "leftover non-spatial dimensions are refused before the components are used", mq, g2[0] if g2 else mq.node)
 
     an = ctx.func(f"{PLOT}.animate_on_figure")
     aflow = ctx.flow(an)
-    sv = [n for n in walk_no_nested(an.node) if isinstance(n, ast.Assign) and norm_text(n.targets[0]) == 'scalar_values']
-    ok = len(sv) == 1 and norm_text(sv[0].value) == 'convention.ravel(scalar).values[:, convention.mask]'
-    ctx.check('R19.4', ok, "frames = ravel(scalar).values[:, mask]: the animated axis first, cells with geometry on the last axis", an, sv[0] if sv else an.node,
-              construct=f"scalar_values = {norm_text(sv[0].value) if sv else '?'}")
+    ma = Matcher(ctx, an)
+    sv = ma.stmt('$frames = $conv.ravel($scalar).values[:, $conv.mask]')
+    ctx.check('R19.4', sv is not None, "frames = ravel(scalar).values[:, mask]: the animated axis first, cells with geometry on the last axis", an, sv or an.node,
+              construct=f"frames = {norm_text(sv.value) if sv is not None else 'not recognised'}")
     mc = [c for c in method_calls(an, 'make_poly_collection')]
-    ok = len(mc) == 1 and norm_text(mc[0].func.value) == 'convention' and not mc[0].args and \
-        norm_text(kwarg(mc[0], 'clim') or ast.Constant(None)) == '(numpy.nanmin(scalar_values), numpy.nanmax(scalar_values))'
-    ctx.check('R19.4', ok, "the collection is the convention's own (polygons[mask]) with limits spanning the masked frames", an, mc[0] if mc else an.node)
+    ok = False
+    if len(mc) == 1 and sv is not None and not mc[0].args and isinstance(mc[0].func.value, ast.Name) and mc[0].func.value.id == ma.name('conv'):
+        ck = kwarg(mc[0], 'clim')
+        ok = ck is not None and ma.match('(numpy.nanmin($frames), numpy.nanmax($frames))', aflow.resolve(ck), commit=False)
+    ctx.check('R19.4', bool(ok), "the collection is the convention's own (polygons[mask]) with limits spanning the masked frames", an, mc[0] if mc else an.node)
     inner = p.functions.get(f"{an.qualname}.<locals>.animate")
     ctx.need('R19.4', inner is not None, "animate_on_figure defines the per-frame update", an)
     sets = [c for c in calls_in(inner) if isinstance(c.func, ast.Attribute) and c.func.attr == 'set_array']
-    ok = len(sets) == 1 and norm_text(sets[0].args[0]) == f"scalar_values[{inner.params[0]}]"
+    ok = len(sets) == 1 and sv is not None and norm_text(sets[0].args[0]) == f"{ma.name('frames')}[{inner.params[0]}]"
     ctx.check('R19.4', ok, "frame k shows row k of those frames", inner, sets[0] if sets else inner.node)
     uvc = [c for c in calls_in(inner) if isinstance(c.func, ast.Attribute) and c.func.attr == 'set_UVC']
-    ok = len(uvc) == 1 and [norm_text(a) for a in uvc[0].args] == [f"vector_u_values[{inner.params[0]}]", f"vector_v_values[{inner.params[0]}]"]
-    vv = [n for n in walk_no_nested(an.node) if isinstance(n, ast.Assign) and norm_text(n.targets[0]) == '(vector_u_values, vector_v_values)']
-    ok = ok and len(vv) == 1 and norm_text(vv[0].value) == '(convention.ravel(vec).values for vec in vector)'
+    vv = ma.stmt('$fu, $fv = ($conv.ravel($vec).values for $vec in $vector)')
+    ok = len(uvc) == 1 and vv is not None and [norm_text(a) for a in uvc[0].args] == [f"{ma.name('fu')}[{inner.params[0]}]", f"{ma.name('fv')}[{inner.params[0]}]"]
     ctx.check('R19.4', ok, "vector frames are the ravelled u and v, row k for frame k, u before v", inner, uvc[0] if uvc else inner.node)
 
     # R19.5 shared with C03: ravel flattens the convention's dimensions in the convention's order
